@@ -435,6 +435,7 @@ class Config:
         self.scalar_records = {}     # record name -> C scalar type (e.g. std::atomic handled separately)
         self.outside_methods = {}    # record outside babylon -> set of method names lowered to extern C functions
         self.type_aliases = {}       # sugar spelling clang prints (typedefs of libstdc++, names written inside a class) -> canonical spelling
+        self.trivial_copy = set()    # outside records that are trivially copyable (copied as C structs)
         self.opaque_sizes = {}       # record name -> (size, align): emitted as an opaque byte blob of clang's size
         self.aliases = []            # (normalised C++ name fragment, short replacement) applied before C names are formed
         for k, v in kw.items():
@@ -1203,6 +1204,7 @@ class Unit:
         for cn, txt in self.extern_protos.items():
             if cn not in self.protos:
                 out.append(txt)
+                out.append('#define VF_HAVE_%s 1' % cn)
         for cn, txt in self.protos.items():
             out.append(txt)
         if spec_include:
